@@ -8,8 +8,86 @@ import os
 from common import rng
 
 
-def around(limit, lo=0, pow2_from=0, dec=True):
-    """sorted boundary values in [lo, limit]"""
+def _fold(node):
+    """value of a constant integer expression (1 << 20, 64 * 1024 * 1024, 2 ** 16 - 1) or None"""
+    import ast
+    if isinstance(node, ast.Constant) and isinstance(node.value, int) and not isinstance(node.value, bool):
+        return node.value
+    if isinstance(node, ast.UnaryOp) and isinstance(node.op, ast.USub):
+        v = _fold(node.operand)
+        return None if v is None else -v
+    if isinstance(node, ast.BinOp):
+        a, b = _fold(node.left), _fold(node.right)
+        if a is None or b is None:
+            return None
+        try:
+            if isinstance(node.op, ast.LShift) and 0 <= b <= 40:
+                return a << b
+            if isinstance(node.op, ast.Pow) and 0 <= b <= 40 and abs(a) <= 1024:
+                return a ** b
+            if isinstance(node.op, ast.Mult):
+                return a * b
+            if isinstance(node.op, ast.Add):
+                return a + b
+            if isinstance(node.op, ast.Sub):
+                return a - b
+            if isinstance(node.op, ast.FloorDiv) and b:
+                return a // b
+        except (OverflowError, ValueError):
+            return None
+    return None
+
+
+def source_constants(repo):
+    """(set of ints, set of short str/bytes constants as latin-1 text) in <repo>/src/lithium/**/*.py"""
+    import ast
+    ints, strs = set(), set()
+    root = os.path.join(repo, "src", "lithium")
+    for d, _, files in os.walk(root):
+        for fn in files:
+            if not fn.endswith(".py"):
+                continue
+            try:
+                tree = ast.parse(open(os.path.join(d, fn), "rb").read())
+            except SyntaxError:
+                continue
+            docstrings = set()
+            for node in ast.walk(tree):
+                if isinstance(node, (ast.Module, ast.ClassDef, ast.FunctionDef, ast.AsyncFunctionDef)) and node.body and \
+                        isinstance(node.body[0], ast.Expr) and isinstance(getattr(node.body[0], "value", None), ast.Constant):
+                    docstrings.add(id(node.body[0].value))
+            for node in ast.walk(tree):
+                v = _fold(node)
+                if v is not None and abs(v) < 2 ** 40:
+                    ints.add(v)
+                if isinstance(node, ast.Constant) and id(node) not in docstrings and isinstance(node.value, (str, bytes)):
+                    t = node.value if isinstance(node.value, str) else node.value.decode("latin-1")
+                    if 0 < len(t) <= 60:
+                        strs.add(t)
+    return ints, strs
+
+
+_MINED = None
+
+
+def mined():
+    """(ints, texts) that occur in the CURRENT source but not in the reviewed one (harness/baseline_constants.json):
+    empty on the unchanged tree; on a changed tree, the limits / block sizes / counters / special texts of the change"""
+    global _MINED
+    if _MINED is None:
+        import json
+        try:
+            base = json.load(open(os.path.join(os.path.dirname(os.path.abspath(__file__)), "baseline_constants.json")))
+            ints, strs = source_constants(os.environ.get("VERIF_REPO", "/repo"))
+            _MINED = (sorted(i for i in ints - set(base["ints"]) if i >= 2), sorted(strs - set(base["strs"])))
+        except (OSError, ValueError, KeyError):
+            _MINED = ([], [])
+    return _MINED
+
+
+def around(limit, lo=0, pow2_from=0, dec=True, mined_limit=None):
+    """sorted boundary values in [lo, limit]: 2^k-1, 2^k, 2^k+1, 10^k-1, 10^k, 10^k+1 - and, on a changed tree, the
+    neighbourhood of every integer constant the change introduced (up to mined_limit, default 8 x limit)"""
     vals = set()
     k = pow2_from
     while 2 ** k - 1 <= limit:
@@ -20,7 +98,23 @@ def around(limit, lo=0, pow2_from=0, dec=True):
         while 10 ** k - 1 <= limit:
             vals.update((10 ** k - 1, 10 ** k, 10 ** k + 1))
             k += 1
-    return sorted(v for v in vals if lo <= v <= limit)
+    vals = {v for v in vals if lo <= v <= limit}
+    cap = 8 * limit if mined_limit is None else mined_limit
+    for c in mined()[0]:
+        for v in (c - 1, c, c + 1, c + 2, 2 * c, 2 * c + 1):
+            if lo <= v <= cap:
+                vals.add(v)
+    return sorted(vals)
+
+
+def with_mined(values, cap, lo=0):
+    """values + the neighbourhood of every integer constant a changed tree introduced (nothing on the unchanged tree)"""
+    out = set(values)
+    for c in mined()[0]:
+        for v in (c - 1, c, c + 1, c + 2, 2 * c, 2 * c + 1):
+            if lo <= v <= cap:
+                out.add(v)
+    return sorted(out)
 
 
 TAILS = [(b"\n", "LF"), (b"\xc3", "cut-2-byte-char"), (b"\xe2\x80", "cut-3-byte-char"), (b"\xf0\x9f\x98", "cut-4-byte-char"),
@@ -41,6 +135,7 @@ def block_files(quick):
     """(name, data, small): files whose size, whose last bytes, or one of whose CR LF pairs sit exactly on a multiple of
     a block size B.  small = cheap enough for the per-byte splitters"""
     blocks = [1 << 16, 1 << 20] if quick else [1 << 12, 1 << 13, 1 << 16, 1 << 17, 1 << 20, 1 << 21]
+    blocks = sorted(set(blocks) | {c for c in mined()[0] if 64 <= c <= (1 << 23)})      # block sizes a changed tree introduced
     for B in blocks:
         small = B <= (1 << 17)
         # 1. file size on the boundary x what the last bytes are
@@ -126,7 +221,7 @@ def final_file_at_part_counts(ck, quick):
     """C01 with part counts around powers of two and ten: a run in which NO candidate is accepted ends with the
     untouched original; a run in which only the first line survives ends with that line"""
     from scale import _run, last_accepted_of
-    for n in ([31, 32, 33, 255, 256, 257, 999, 1000, 1001, 1023, 1024, 1025, 2049] if quick else part_counts(quick)):
+    for n in (with_mined([31, 32, 33, 255, 256, 257, 999, 1000, 1001, 1023, 1024, 1025, 2049], 9000, lo=3) if quick else part_counts(quick)):
         data = b"".join(b"line %d\n" % i for i in range(n))
         tests = [("nothing-accepted", lambda d, data=data: d == data)]
         if n in (33, 1025) or not quick:
@@ -177,7 +272,7 @@ def partner_at_distances(ck, quick):
     """C13 (balanced): an opening bracket whose partner is d atoms later, for d around powers of two and ten; the test
     needs every atom in between and ignores the brackets, so the pair can be deleted together and nothing else can"""
     from scale import _run
-    ds = [2, 255, 256, 257, 1023, 1024, 1025, 4097] if quick else around(8193, lo=2, pow2_from=7)
+    ds = with_mined([2, 255, 256, 257, 1023, 1024, 1025, 4097], 9000, lo=2) if quick else around(8193, lo=2, pow2_from=7)
     for d in ds:
         for op, cl in ((b"{\n", b"}\n"), (b"f(\n", b");\n")) if d < 2000 or not quick else ((b"{\n", b"}\n"),):
             fill = b"".join(b"k%d;\n" % i for i in range(d - 1))
@@ -203,7 +298,15 @@ def long_run_recurrence(ck, quick):
     proposes the run's FIRST candidate again"""
     import hashlib
     from scale import _run
-    for n, big in ((144, 128),) if quick else ((80, 64), (144, 128), (300, 256)):
+    plans = [(144, 128)] if quick else [(80, 64), (144, 128), (300, 256)]
+    for c in mined()[0]:
+        # a limit on the number of tests / remembered candidates introduced by a changed tree: a run long enough to pass it
+        if 2000 < c <= 120000:
+            big = 128
+            while big * big // 2 < c + c // 8:
+                big *= 2
+            plans.append((big + 16, big))
+    for n, big in sorted(set(plans)):
         p = n - big
         lines = [b"line %d\n" % i for i in range(n)]
         data = b"".join(lines)
